@@ -5,7 +5,7 @@
 From Coq Require Import List Ascii String ZArith Bool Lia Arith.
 From Coq Require Import QArith.
 Local Close Scope Q_scope.
-From PV Require Import Base.Sx Base.Text Base.Float Spec.Hier Proofs.Decimal Model.PdbLex Model.PdbParse Model.PdbWrite.
+From PV Require Import Base.Sx Base.Text Base.Float Spec.Hier Proofs.Decimal Proofs.C01just Model.PdbLex Model.PdbParse Model.PdbWrite Proofs.C03line.
 Import ListNotations.
 
 (* 1. a text that fits its columns is written as it is, padded on the right to the width of the field *)
@@ -53,6 +53,44 @@ Proof.
   rewrite (digits_spec (show_Zpos n) rest acc cnt A Hr), V. reflexivity.
 Qed.
 
+(* 7. a number field: the fixed-point text the writer puts right-aligned into w columns is read by the reader's field
+      function as the binary64 value nearest to the number rounded (half to even) to the p decimals of the column -
+      for every finite value that fits the columns *)
+Theorem C03_number_field_is_read : forall w p f, w <> O -> p <> O -> num_parts f <> None ->
+  List.length (number_text p f) <= w ->
+  parse_f64_field (trim (field_text w (fixed w p f))) = Some (number_value p f).
+Proof. exact fixed_field_is_read. Qed.
+(* ... and a value whose rounding to p decimals is below 10^k fits k + 1 + p columns plus one for its sign *)
+Theorem C03_number_width : forall p nz m e k, p <> O -> 0 < k -> (fixed_r p m e < 10 ^ Z.of_nat (k + p))%Z ->
+  List.length (fmt_fixed p nz (m, e)) <= (if ((m <? 0)%Z || nz)%bool then 1 else 0) + k + 1 + p.
+Proof. exact fmt_fixed_length. Qed.
+
+(* 8. the coordinate record: the line the writer prints for an atom whose fields fit their columns (fits_columns: serial number
+      0..99999, names without surrounding blanks of at most 4 / 3 characters, one-character chain id, alternate location and
+      insertion code, residue number -999..9999, numbers that fit 8.3 / 6.2, charge -9..9) is lexed by the reader model to
+      exactly the atom's serial number, name, alternate location, residue name, chain, residue number, insertion code, element
+      and charge, and to its coordinates, occupancy and B factor rounded to the precision of their columns, with no diagnostic *)
+Theorem C03_coordinate_record_reads_back : forall ln het a c r ch, fits_columns a c r ch ->
+  lex_atom ln (get_line (coord_fields a c r ch)) het =
+  (LAtom het {| ab_serial := a_serial a; ab_name := a_name a; ab_alt := c_alt c; ab_resname := c_name c; ab_chain := ch_id ch;
+                ab_resnum := r_num r; ab_icode := r_icode r; ab_element := element_text a; ab_charge := a_charge a |}
+          (number_value 3 (a_x a)) (number_value 3 (a_y a)) (number_value 3 (a_z a)) (number_value 2 (a_occ a)) (number_value 2 (a_b a)),
+   []).
+Proof. exact coord_record_read_back. Qed.
+(* the record name written for the atom selects the coordinate lexer with the atom's hetero flag, under every option *)
+Theorem C03_coordinate_record_dispatch : forall ln a c r ch atomic_only loose,
+  lex_line ln (get_line (coord_fields a c r ch)) atomic_only loose = inl (lex_atom ln (get_line (coord_fields a c r ch)) (a_hetero a)).
+Proof. exact coord_line_dispatch. Qed.
+(* these are the fields the writer model prints for every atom of a chain (chain_lines is save_pdb's atom loop) *)
+Theorem C03_writer_prints_coordinate_fields : forall level ch, exists tail_of rest,
+  chain_lines level ch =
+  (flat_map (fun r => flat_map (fun c => flat_map (fun a => (print_line level (coord_fields a c r ch) ++ tail_of a c r)%list)
+     (c_atoms c)) (r_confs r)) (ch_residues ch) ++ rest)%list.
+Proof. intros level ch. eexists (fun a c r => _), _. rewrite chain_lines_uses_coord_fields. reflexivity. Qed.
+(* the hypotheses are met by ordinary atoms *)
+Theorem C03_fits_columns_inhabited : fits_columns ex_atom ex_conf ex_res ex_chain.
+Proof. exact ex_fits. Qed.
+
 Print Assumptions C03_field_keeps_fitting_text.
 Print Assumptions C03_field_width.
 Print Assumptions C03_empty_field_blank.
@@ -61,3 +99,9 @@ Print Assumptions C03_number_reads_back.
 Print Assumptions C03_number_exact_for_integers.
 Print Assumptions C03_number_rounded_to_precision.
 Print Assumptions C03_integer_reads_back.
+Print Assumptions C03_number_field_is_read.
+Print Assumptions C03_number_width.
+Print Assumptions C03_coordinate_record_reads_back.
+Print Assumptions C03_coordinate_record_dispatch.
+Print Assumptions C03_writer_prints_coordinate_fields.
+Print Assumptions C03_fits_columns_inhabited.
